@@ -429,7 +429,7 @@ def write_evidence(prop, tier, seed, spec, thms, bad_thms, lean_ok, lines, impl,
             ] + spec.get("trusted_base", []),
             "theorems_full_strength": full,
             "theorems_partial": partial,
-            "evaluations": len(lines),
+            "evaluations": sum(spec["weight"](l) for l in lines) if spec.get("weight") else len(lines),
             "distinct_nontrivial": len(nontrivial),
             "rule": spec.get("rule", "op lines from harness generators (suites " + ",".join(spec["suites"]) +
                              ") + corpus; distinct = distinct op line, non-trivial = the implementation computed a value (outcome ok)"),
